@@ -29,6 +29,14 @@ def oab_declared(files, order, incremental):
 
 def generate(ctx):
     rng = ctx.rng
+    # directed: a CHM member declared to start exactly at the padded end of the LZX stream
+    for z in (False, True):
+        try:
+            c = S.chm_member_at_padded_end(rng, last_entry_zero=z)
+        except Exception:
+            continue
+        yield S.file_lines(c) + ["new chm", "open i0 f.chm", "extract i0 h0 1 o1", "extract i0 h0 0 o0", "extract i0 h0 1 o1b", "close i0 h0", "destroy i0"], \
+              dict(family="chm.member-at-padded-end", how="directed", salvage=0, kind="chm", zero_entry=z)
     n = 60 if ctx.tier == "quick" else 2500
     for case in S.valid_cases(rng, n, kinds=["cab", "cab", "cab", "chm", "chm", "oab"], avoid_defects=True):
         variants = [(case["files"], "valid")] + S.malform(rng, case, 3 if ctx.tier == "quick" else 6)
@@ -84,4 +92,5 @@ def judge(ctx, meta, impl, model):
     return fs
 
 def classify(ctx, meta, finding):
+    if meta.get("family") == "chm.member-at-padded-end" and "status OK but" in finding.text: return "D11"
     return None
